@@ -6,6 +6,7 @@ Require Import Verif.Model.Base Verif.Proofs.BaseP Verif.Model.SeqRange Verif.Mo
                Verif.Model.Transmit Verif.Model.CommitRmnGate Verif.Proofs.CommitSMP Verif.Proofs.CommitRmnGateP
                Verif.Model.C05Life Verif.Proofs.C05LifeP.
 Require Import Verif.Check.C03_check Verif.Check.C05_check.
+From Coq Require Import Sorting.Sorted.
 
 (* ====================================================================================================
    boolean equalities of the case types are equalities
@@ -230,7 +231,76 @@ End Report.
 (* ====================================================================================================
    build: Processor.Outcome in the building state                    (C05_roots_signed, C05_no_sigs_without_roots)
    ==================================================================================================== *)
+(* build_ok as it was before the order clause was added: C05_reported_roots_sorted (reported roots sorted by chain,
+   one per chain) was not judged, a wrong order showed as a model mismatch only *)
+Definition build_ok_before (i : build_in) (o : outcome) : bool :=
+  let '(max, n, prev, q, co) := i in
+  (match o_roots o with [] => match o_sigs o with [] => true | _ => false end | _ => true end) &&
+  match next_state (o_type prev), q_retry q, co, q_sigs q with
+  | Building, false, Some c, Some b =>
+      match parse_sigs (b_sigs b), parse_lanes (b_lanes b) with
+      | Some sigs, Some lanes =>
+          forallb (fun r => existsb (root_eqb r) (c_roots c) && existsb (root_eqb r) lanes) (o_roots o) &&
+          forallb (fun r => if existsb (root_eqb r) lanes then existsb (root_eqb r) (o_roots o) else true) (c_roots c) &&
+          match o_roots o with
+          | [] => Z.eqb (o_type o) T_empty
+          | _ => Z.eqb (o_type o) T_generated && list_eqb N.eqb (o_sigs o) sigs
+          end
+      | _, _ => outcome_eqb o empty_outcome
+      end
+  | _, _, _, _ => true
+  end.
+
+Lemma nodupb_NoDup_N (l : list N) : nodupb N.eqb l = true <-> NoDup l.
+Proof.
+  induction l as [|x l IH]; cbn [nodupb].
+  - split; [constructor|reflexivity].
+  - rewrite andb_true_iff, negb_true_iff, IH. split.
+    + intros [Hx Hl]. constructor; [|exact Hl]. intros Hin.
+      assert (existsb (N.eqb x) l = true) by (apply existsb_exists; exists x; split; [exact Hin|apply N.eqb_refl]). congruence.
+    + intros H. inversion H as [|y l' Hx Hl]; subst. split; [|exact Hl].
+      destruct (existsb (N.eqb x) l) eqn:E; [|reflexivity]. apply existsb_exists in E. destruct E as [y [Hy Exy]].
+      apply N.eqb_eq in Exy. subst y. contradiction.
+Qed.
+Lemma strict_ascb_lt l : strict_ascb l = true -> StronglySorted N.lt l.
+Proof.
+  induction l as [|x [|y r] IH]; intros H.
+  - constructor.
+  - constructor; constructor.
+  - cbn [strict_ascb] in H. apply andb_true_iff in H. destruct H as [Hxy Hr]. apply N.ltb_lt in Hxy.
+    specialize (IH Hr). constructor; [exact IH|]. inversion IH as [|a l Hs Hall]; subst.
+    constructor; [exact Hxy|]. eapply Forall_impl; [|exact Hall]. intros z Hz. cbn beta in Hz. lia.
+Qed.
+(* strictly ascending keys = what C05_reported_roots_sorted says of the reported roots: sorted by key, no key twice *)
+Lemma strict_ascb_iff {A} (key : A -> N) (l : list A) :
+  strict_ascb (map key l) = true <-> KSorted key l /\ NoDup (map key l).
+Proof.
+  split.
+  - intros H. apply strict_ascb_lt in H. induction l as [|x l IH]; [split; constructor|].
+    cbn [map] in H. inversion H as [|a l' Hs Hall]; subst. destruct (IH Hs) as [I1 I2]. split.
+    + constructor; [exact I1|]. apply Forall_forall. intros y Hy. rewrite Forall_forall in Hall.
+      assert (key x < key y)%N by (apply Hall; now apply in_map). lia.
+    + cbn [map]. constructor; [|exact I2]. intros Hin. rewrite Forall_forall in Hall. specialize (Hall _ Hin). lia.
+  - intros [Hs Hn]. induction l as [|x [|y r] IH]; [reflexivity|reflexivity|].
+    inversion Hs as [|a l' Hs' Hall]; subst. cbn [map] in Hn. inversion Hn as [|a l' Hx Hn']; subst.
+    change (strict_ascb (map key (x :: y :: r))) with (N.ltb (key x) (key y) && strict_ascb (map key (y :: r))).
+    apply andb_true_iff. split; [|now apply IH].
+    apply N.ltb_lt. inversion Hall as [|a l' Hxy _]; subst. cbn beta in Hxy.
+    assert (key x <> key y) by (intros E; apply Hx; left; now rewrite E). lia.
+Qed.
+
 Section Build.
+  (* the model's outcome passes the order clause: C05_reported_roots_sorted *)
+  Lemma build_order_model max n prev q co : build_order_ok prev q co (get_outcome max n prev q co) = true.
+  Proof.
+    unfold build_order_ok. destruct (next_state (o_type prev)) eqn:ST; try reflexivity.
+    destruct (q_retry q) eqn:R; try reflexivity. destruct co as [c|]; [|reflexivity].
+    destruct (nodupb N.eqb (map root_chain (c_roots c))) eqn:ND; [|reflexivity]. apply nodupb_NoDup_N in ND.
+    assert (GO : get_outcome max n prev q (Some c) = build_report q c prev).
+    { unfold get_outcome, get_outcome_with. rewrite ST, R. reflexivity. }
+    rewrite GO. apply strict_ascb_iff. now apply reported_roots_sorted.
+  Qed.
+
   (* premise: the previous outcome handed in carries signatures only with roots (needed in the retry branch, which
      hands the previous outcome on; it is the invariant C05_no_sigs_without_roots and holds of every outcome the
      harness feeds back) *)
@@ -238,7 +308,7 @@ Section Build.
     sigs_imply_roots prev -> build_ok (max, n, prev, q, co) (build_model (max, n, prev, q, co)) = true.
   Proof.
     intros max n prev q co SP. unfold build_ok, build_model.
-    rewrite (proj2 (sir_iff _) (no_sigs_without_roots max n prev q co SP)). cbn [andb].
+    rewrite (proj2 (sir_iff _) (no_sigs_without_roots max n prev q co SP)). rewrite build_order_model. cbn [andb].
     destruct (next_state (o_type prev)) eqn:ST; try reflexivity.
     destruct (q_retry q) eqn:R; try reflexivity.
     destruct co as [c|]; [|reflexivity]. destruct (q_sigs q) as [b|] eqn:B; [|reflexivity].
@@ -264,8 +334,24 @@ Section Build.
      build_report's: the reported roots are EXACTLY the agreed roots equal to a lane update of the bundle (iff), the
      signatures are the bundle's and present only with roots, a malformed bundle gives the empty outcome; and
      signatures never come without roots (the invariant of C05_no_sigs_without_roots).
-     Not covered: the order of the reported roots (C05_reported_roots_sorted; a wrong order shows as a model
-     mismatch only), the outcome of a building round WITHOUT bundle (not part of C05). *)
+     The order clause (C05_reported_roots_sorted on the implementation's outcome) is build_sound_order below.
+     Not covered: the outcome of a building round WITHOUT bundle beyond its order (not part of C05). *)
+  Lemma build_ok_stronger i o : build_ok i o = true -> build_ok_before i o = true.
+  Proof.
+    destruct i as [[[[max n] prev] q] co]. unfold build_ok, build_ok_before. rewrite !andb_true_iff.
+    intros [[H0 _] H]. split; assumption.
+  Qed.
+  (* C05_reported_roots_sorted with the implementation's outcome in the place of build_report's *)
+  Lemma build_sound_order : forall max n prev q co o c,
+    build_ok (max, n, prev, q, co) o = true ->
+    next_state (o_type prev) = Building -> q_retry q = false -> co = Some c ->
+    NoDup (map root_chain (c_roots c)) ->
+    KSorted root_chain (o_roots o) /\ NoDup (map root_chain (o_roots o)).
+  Proof.
+    intros max n prev q co o c H ST R -> ND. unfold build_ok in H. rewrite !andb_true_iff in H. destruct H as [[_ H] _].
+    unfold build_order_ok in H. rewrite ST, R in H. apply nodupb_NoDup_N in ND. rewrite ND in H.
+    now apply strict_ascb_iff.
+  Qed.
   Lemma build_sound : forall max n prev q co o,
     build_ok (max, n, prev, q, co) o = true ->
     sigs_imply_roots o /\
@@ -277,7 +363,8 @@ Section Build.
          (o_roots o <> [] -> o_sigs o = sigs /\ o_type o = T_generated) /\
          (o_roots o = [] -> o_sigs o = [] /\ o_type o = T_empty)).
   Proof.
-    intros max n prev q co o H. unfold build_ok in H. apply andb_true_iff in H. destruct H as [H0 H].
+    intros max n prev q co o H. apply build_ok_stronger in H.
+    unfold build_ok_before in H. apply andb_true_iff in H. destruct H as [H0 H].
     apply sir_iff in H0. split; [exact H0|].
     intros c b ST R -> B. rewrite ST, R, B in H.
     destruct (parse_sigs (b_sigs b)) as [sigs|] eqn:PS.
@@ -303,6 +390,27 @@ Section Build.
     let prev := mkOutcome T_selected [] [] [] 0 [] (4, 1)%N in
     build_ok (3, 256, prev, q, Some c)%N (mkOutcome T_generated [] [(7, (10, 12), 5, 99)%N] [] 0 [1; 2]%N (4, 1)%N) = true.
   Proof. vm_compute. reflexivity. Qed.
+
+  (* WITNESS of the weakness: two agreed roots (chains 7 and 8), both signed; the outcome reports them in descending
+     chain order, resp. reports the root of chain 7 twice: the old property accepted both (order / one per chain was
+     left to model equality), the new one rejects them and accepts the sorted outcome (the model's) *)
+  Example build_ok_before_weak :
+    let c := mkCons [(7, (10, 12), 5, 99); (8, (1, 2), 6, 98)]%N [] [] cfg_empty in
+    let q := mkQuery false (Some (mkBundle [SigOk 1; SigOk 2] [LaneOk 7 10 12 5 99; LaneOk 8 1 2 6 98]%N)) in
+    let prev := mkOutcome T_selected [] [] [] 0 [] (4, 1)%N in
+    let out rs := mkOutcome T_generated [] rs [] 0 [1; 2]%N (4, 1)%N in
+    let r7 := (7, (10, 12), 5, 99)%N in let r8 := (8, (1, 2), 6, 98)%N in
+    build_ok_before (3, 256, prev, q, Some c)%N (out [r8; r7]) = true /\
+    build_ok (3, 256, prev, q, Some c)%N (out [r8; r7]) = false /\
+    ~ KSorted root_chain (o_roots (out [r8; r7])) /\
+    build_ok_before (3, 256, prev, q, Some c)%N (out [r7; r7; r8]) = true /\
+    build_ok (3, 256, prev, q, Some c)%N (out [r7; r7; r8]) = false /\
+    build_ok (3, 256, prev, q, Some c)%N (out [r7; r8]) = true /\
+    build_model (3, 256, prev, q, Some c)%N = out [r7; r8].
+  Proof.
+    cbv zeta. repeat split; try (vm_compute; reflexivity).
+    intros H. inversion H as [|a l _ Hall]; subst. inversion Hall as [|a l Hle _]; subst. vm_compute in Hle. now apply Hle.
+  Qed.
 End Build.
 
 (* ====================================================================================================
